@@ -594,6 +594,22 @@ def check_mutated(case, ctx):
     require(not (st_ == "ok" and ok), f"mutated/{typ}:{mut}:accepted",
             f"m={sp.m} n={sp.n} n_in={case['n_in']} idx={idx} scriptsig={tin.script_sig!r} "
             f"witness={tin.witness!r}"[:600])
+    # the same unauthorised spend with a true value slipped UNDER everything else on the initial stack: a
+    # signature check that fails without leaving its verdict on the stack would now end on that value
+    if typ in ("p2pkh", "p2pkh_uncompressed", "p2sh_multisig"):
+        tin.script_sig = Script([b"\x01"] + list(tin.script_sig.commands))
+    elif typ in SEGWIT and typ not in ("p2tr_key", "p2tr_key_root"):
+        tin.witness.items.insert(0, b"\x01")
+    else:
+        return
+    try:
+        with time_limit(20):
+            st_, ok = attempt(tx.verify_input, idx)
+    except CaseTimeout:
+        return
+    ctx.label("true_value_under_the_stack")
+    require(not (st_ == "ok" and ok), f"mutated/{typ}:{mut}:accepted_with_true_value_under_the_stack",
+            f"m={sp.m} n={sp.n} scriptsig={tin.script_sig!r} witness={tin.witness!r}"[:600])
 
 
 # ----------------------------------------------------------- signature-free grammar
